@@ -204,6 +204,14 @@ def extra_cases(rng, scale):
         out.append(('x_any_pos', None, "any(a, fn(x) x > 5)", {'a': a}))
         out.append(('x_all_pos', None, "all(a, fn(x) x > -5)", {'a': a}))
         out.append(('x_unique', None, "unique(a)", {'a': a}))
+    for _ in range(max(1, int(1200 * scale))):
+        mk = lambda: (rng.choice(['l', 'S']), tuple(('i', rng.randint(0, 6)) for _ in range(rng.randint(0, 5))))   # noqa
+        a, b = mk(), mk()
+        if a[0] == 'S':
+            a = ('S', tuple(dict.fromkeys(a[1])))
+        if b[0] == 'S':
+            b = ('S', tuple(dict.fromkeys(b[1])))
+        out.append(('x_setops_seq', None, "[union(a, b), intersection(a, b), diff(a, b), symmetric_diff(a, b), union(b, a), intersection(b, a), a, b]", {'a': a, 'b': b}))
     for a in range(-5, 6):
         for b in range(-5, 6):
             out.append(('x_interval', None, "interval(a, b)", {'a': ('i', a), 'b': ('i', b)}))
@@ -230,6 +238,14 @@ def extra_reference(func, env, res):
             return ('s', x)
         return ('l', tuple(form(y) for y in x))
     import functools
+    if func == 'x_setops_seq':
+        A, B = [x[1] for x in env['a'][1]], [x[1] for x in env['b'][1]]
+        sa, sb = set(A), set(B)
+        S_ = lambda xs: ('S', tuple(('i', x) for x in sorted(xs)))   # noqa
+        want_ = ('l', (S_(sa | sb), S_(sa & sb), S_(sa - sb), S_(sa ^ sb), S_(sa | sb), S_(sa & sb),
+                       (env['a'][0], tuple(('i', x) for x in (A if env['a'][0] == 'l' else sorted(sa)))),
+                       (env['b'][0], tuple(('i', x) for x in (B if env['b'][0] == 'l' else sorted(sb))))))
+        return None if v == want_ else f"the definition (operands unchanged) gives {want_}"
     if func == 'x_reduce_sub':
         want = functools.reduce(lambda acc, x: acc - x, a)
     elif func == 'x_reduce_digits':
